@@ -29,11 +29,14 @@ PROGS = [
     # labels that LOOK like a register followed by more (only r0..r7 alone are registers, for assembler and debugger alike)
     # labels differing only in letter case are different symbols, for the assembler and the debugger alike
     "lea r0 Cell\nld r1 CELL\nhalt\nCell .fill x11\nCELL .fill x22\ncell .fill x33\ncELL halt\n",
+    # every punctuation character a statement's text can hold (inside string literals): shown exactly as written
+    "lea r0 brace\nputs\nhalt\nbrace .stringz \"a{b\"\nfmt .stringz \"{r0} = {1;2m}x\"\nclose_ .stringz \"}{ }\"\npunct .stringz \"100% [ok] <x> $y #z @w &v *u (t) ~s ^q |p !o ?n 'm `l\"\nlast2 halt\n",
     "lea r0 r10\nputs\nld r1 r25\nhalt\nr10 .stringz \"hi\"\nr25 .fill x1234\nR00 add r1 r1 #1\nr8 halt\nr1a halt\nr77x halt\nr0_ halt\n",
 ]
 LABELS = ["start", "first", "second", "third", "msg", "after", "main", "tbl", "end_", "alpha", "beta", "gamma", "high", "higher",
           "first_", "mid", "last_", "s", "t", "u", "l_one", "l_two", "nothere", "Start",
-          "r10", "r25", "R00", "r8", "r1a", "r77x", "r0_", "Cell", "CELL", "cell", "cELL", "celL", "CeLL"]
+          "r10", "r25", "R00", "r8", "r1a", "r77x", "r0_", "Cell", "CELL", "cell", "cELL", "celL", "CeLL",
+          "brace", "fmt", "close_", "punct", "last2"]
 
 
 def gen(tier, seed):
